@@ -590,7 +590,9 @@ def gen_pivots(rows_x1, rows_x2, wide):
 def check_pivot(case):
     from pyg_base import dictable, last
     out = Out()
-    a = [float('nan') if PA[i] == 'NAN' else PA[i] for i in case['a']]
+    # NaN x keys are ONE key whatever float objects carry them: even rows share one NaN object, odd rows get a fresh one each (rows of one key keep their order)
+    _shared_nan = float('nan')
+    a = [(_shared_nan if pos % 2 == 0 else float('nan')) if PA[i] == 'NAN' else PA[i] for pos, i in enumerate(case['a'])]
     b = [PB[i] for i in case['b']]
     n = len(a)
     # in the one-key family the key column carries a name of which every y label ('p', 'q', '1', '2') is a substring: labels are turned into
@@ -732,7 +734,13 @@ def check_pivot(case):
         ylabels = [k for k in P.keys() if k not in xcols]
         if len(ylabels) >= 2:
             try:
-                U2 = P.unpivot(xlist, {ycol: ylabels[::-1]}, zcol)
+                spec_ = {ycol: ylabels[::-1]}          # the caller's own spec object, used for two calls
+                U2 = P.unpivot(xlist, spec_, zcol)
+                U2b = P.unpivot(xlist, spec_, zcol)
+                out.call()
+                if spec_ != {ycol: ylabels[::-1]} or _rows(U2b)[1] != _rows(U2)[1]:
+                    out.viol('operand-mutated', '%s then unpivot(%r, spec, %r) twice with ONE spec dict {%r: %r}: the dict is now %r, second result %s' % (
+                        label, xlist, zcol, ycol, ylabels[::-1], spec_, show(_rows(U2b)[1], 300)), op='unpivot', operand='spec', **sig)
                 out.call()
                 ku2, ru2 = _rows(U2)
                 got2 = [r for r in ru2 if r.get(zcol) is not None]
